@@ -80,6 +80,17 @@ def verilog_names(rng, net, style):
             if new not in used and "\\" not in new and mp[victim] not in new:
                 used.add(new)
                 mp[victim] = new
+    if style == "synthetic" or rng.random() < 0.1:
+        # look-alikes of everything the reader or writer treats specially by NAME: the reserved constant nets
+        # (tie_0 / tie_1 / tie_x themselves are excluded by the property, names that merely resemble them are
+        # not), keywords with a suffix, instance-like prefixes
+        for _ in range(rng.randint(1, 2)):
+            new = rng.choice(("tie_1_en", "tie_0_n", "tie_x2", "tie_00", "tie_", "tie", "tie_1x", "wire_1", "input_a",
+                              "output_q", "assign_0", "module_x", "not_", "buf_1", "_tie_0"))
+            victim = rng.choice(plain_nodes)
+            if new not in used and new not in KEYWORDS:
+                used.add(new)
+                mp[victim] = new
     inst_map = {}
     for inst in net["bbs"]:
         inst_map[inst] = plain()
